@@ -25,13 +25,15 @@ RULE = (
     "shape (N, |scope|), N = 2 factorises. Non-trivial: >= 2 distinct rows observed with positive weight"
 )
 ASSUMPTIONS = ["continuous (Gaussian) inputs are not enumerable and are outside this check", "variables numbered 0..n-1 (the query returns one column per variable)"]
-BOUNDS = {"quick": {"max_vars": 2, "max_points": 14}, "thorough": {"max_vars": 3, "max_points": 17}}
+BOUNDS = {"quick": {"max_vars": 3, "max_points": 14}, "thorough": {"max_vars": 3, "max_points": 17}}
 CHUNK = 1
 
 
 def cases(tier, seed):
     thorough = tier == "thorough"
-    trees = [0, ("P", [0, 1]), ("M", [[0, 1], [1, 0]]), ("M", [[0, 1], [0, 1]])]
+    trees = [0, ("P", [0, 1]), ("M", [[0, 1], [1, 0]]), ("M", [[0, 1], [0, 1]]),
+             # asymmetric DAGs over 3 variables with shared leaves (products at different depths, each alone in its fold group)
+             ("M", [[0, 1, 2], [("P", [1, 2]), 0]]), ("M", [[("P", [0, 1]), 2], [0, 1, 2]])]
     if thorough:
         trees += [("P", [0, 1, 2]), ("P", [("P", [0, 1]), 2]), ("M", [[("P", [0, 1]), 2], [("P", [0, 2]), 1]])]
     for tree in trees:
